@@ -16,6 +16,8 @@
 (*             including the call that returned the n-th line - nothing    *)
 (*             belonging to a later line has happened - or the whole base  *)
 (*             run if it returns fewer than n lines.                       *)
+(*   "silent"  "same", and the run wrote nothing to standard out (the same   *)
+(*             csvpath with print-mode: no-default, C15).                   *)
 (* Unlike RunTrace this module does not say what the run should be - only  *)
 (* that the runs are one run; what the run should be is C01/C03/C04/C13's  *)
 (* business.  Verdicts are total: the first differing field is named.      *)
@@ -100,7 +102,8 @@ PrefixDiff(o) ==
 Step ==
   /\ verdict = "run" /\ j <= Len(Case.others)
   /\ LET o == Case.others[j]
-         d == IF o.rel = "prefix" THEN PrefixDiff(o) ELSE SameDiff(o)
+         d0 == IF o.rel = "prefix" THEN PrefixDiff(o) ELSE SameDiff(o)
+         d == IF d0[1] = "ok" /\ o.rel = "silent" /\ o.trace.final.stdout # <<>> THEN <<"final_stdout", 0>> ELSE d0
      IN IF d[1] = "ok" THEN j' = j + 1 /\ UNCHANGED <<verdict, detail>>
         ELSE verdict' = d[1] /\ detail' = <<j, d[2]>> /\ UNCHANGED j
   /\ UNCHANGED tid
